@@ -1124,11 +1124,28 @@ def finder_one(ctx, c, report=True):
     want_set = {(w[0], len(w[1])) for w in want_all}
     got_set = set(isles.values())
     bad = None
-    if got_set != want_set:
-        bad = f"islands used by the finder {sorted(got_set)} != seeded flood components {sorted(want_set)}"
+    # C02's words: "no reported component originates from a pixel group that fails this rule" - containment.  An island
+    # of find_islands may legitimately yield no source (summit rules, max_summits: other properties own those), so a
+    # seeded flood group that is absent from the finder's output is counted, not judged.
+    if not got_set <= want_set:
+        bad = (f"islands used by the finder {sorted(got_set - want_set)} are not seeded flood components "
+               f"{sorted(want_set)}")
+    ctx.count('finder-islands-without-source', len(want_set - got_set))
     orphan = [int(s.island) for s in comps if int(s.island) not in isles]
     if not bad and orphan:
         bad = f"components refer to islands {orphan} that are not reported"
+    # options that have nothing to do with which islands are found (blank, docov, outfile) must not change the set of
+    # islands the finder works on: compare with the run that differs only in those options
+    side = {k: v for k, v in (c.get('options') or {}).items() if k in ('blank', 'docov', 'outfile')}
+    if not bad and side:
+        keep = {k: v for k, v in (c.get('options') or {}).items() if k not in side}
+        try:
+            _, isles0 = finder_sources(path, flood, seed, **keep)
+            if set(isles0.values()) != got_set:
+                bad = (f"the islands behind the reported sources depend on {side}: {sorted(got_set)} with, "
+                       f"{sorted(set(isles0.values()))} without (other options {keep})")
+        except Exception as e:
+            bad = f"find_sources_in_image({keep}) raised {type(e).__name__}: {e}"
     if bad:
         ctx.fail('spec', dict(c, pretty=pretty(c)), (f"options {c['options']}: " if c.get('options') else '') + bad,
                  dict(site='find_sources_in_image', clause='component-origin', options=sorted((c.get('options') or {}).items())))
